@@ -143,3 +143,12 @@ mut('c09-swallow-write-error', ['C09'], 'src/encode.rs', "            get_sample
 mut('c09-rewrap-read-error', ['C09'], 'src/reader/decoder.rs', "                Ok([]) => Ok(None),\n                Err(ref err) if err.kind() == ErrorKind::Interrupted => continue,\n                Err(err) => Err(err),", "                Ok([]) => Ok(None),\n                Err(ref err) if err.kind() == ErrorKind::Interrupted => continue,\n                Err(err) => Err(std::io::Error::new(ErrorKind::UnexpectedEof, err.to_string())),")
 mut('c09-bom-error-default', ['C09'], 'src/reader/decoder.rs', "                Err(ref err) if err.kind() == ErrorKind::Interrupted => continue,\n                Err(err) => return Err(err),\n            };\n\n            if available.is_empty() {", "                Err(ref err) if err.kind() == ErrorKind::Interrupted => continue,\n                Err(_) => break,\n            };\n\n            if available.is_empty() {")
 mut('c09-version-error-as-eof', ['C09'], 'src/decode.rs', "            Ok(None) => (None, false),\n            Err(err) => return Err(err),", "            Ok(None) => (None, false),\n            Err(err) if err.kind() == io::ErrorKind::WouldBlock => (None, false),\n            Err(err) => return Err(err),")
+
+# ---- C10
+mut('c10-swap-le-be', ['C10'], 'src/reader/encoding.rs', "            [0xFF, 0xFE, ..] => (Self::Utf16LE, 2),\n            [0xFE, 0xFF, ..] => (Self::Utf16BE, 2),", "            [0xFF, 0xFE, ..] => (Self::Utf16BE, 2),\n            [0xFE, 0xFF, ..] => (Self::Utf16LE, 2),")
+mut('c10-replacement-char-question', ['C10'], 'src/reader/encoding.rs', "                        dst.push(char::REPLACEMENT_CHARACTER);", "                        dst.push('?');")
+mut('c10-revert-F8-be', ['C10'], 'src/reader/decoder.rs', "Encoding::Utf16BE => Ok(idx % 2 == 1 && self.read_buf[idx - 1] == 0),", "Encoding::Utf16BE => Ok(true),")
+mut('c10-revert-F8-le-odd', ['C10'], 'src/reader/decoder.rs', "            Encoding::Utf16LE => Ok(false),", "            Encoding::Utf16LE => Ok(true),")
+mut('c10-utf16-surrogate-drop', ['C10'], 'src/reader/encoding.rs', "let chars = char::decode_utf16(src).map(|ch| ch.unwrap_or(char::REPLACEMENT_CHARACTER));", "let chars = char::decode_utf16(src).filter_map(|ch| ch.ok());")
+mut('c10-utf8-error-len-skip-one', ['C10'], 'src/reader/encoding.rs', "src = &src[valid_up_to + error_len..];", "src = &src[valid_up_to + 1..];")
+mut('c10-bom-utf8-not-skipped', ['C10','C05'], 'src/reader/encoding.rs', "[0xEF, 0xBB, 0xBF, ..] => (Self::Utf8, 3),", "[0xEF, 0xBB, 0xBF, ..] => (Self::Utf8, 0),")
